@@ -24,6 +24,9 @@ pub enum Op {
     /// the caller records a business error on the oldest open entry, then exits it: accounted as any exit
     ExitErr,
     Advance(u64),
+    /// stat::reset_resource_map() while nothing is in flight: the resources start again with
+    /// blank nodes (the global inbound node is not part of the registry and keeps its history)
+    ResetRegistry,
 }
 
 struct Open {
@@ -115,7 +118,16 @@ impl C04 {
         let t = now_ms();
         let tt = if inbound { TrafficType::Inbound } else { TrafficType::Outbound };
         self.ledger.touch(res);
-        match build(res, tt, batch) {
+        // entries with a batch count above 1 also carry key/value parameters (no rule is keyed on
+        // them): how an entry is parameterised has nothing to do with how it is accounted
+        let att = if batch >= 2 {
+            let mut m: sentinel_core::base::ParamsMap = Default::default();
+            m.insert("c04-key".into(), "v".into());
+            Some(m)
+        } else {
+            None
+        };
+        match build_full(res, tt, batch, None, att) {
             Built::Ok(e) => {
                 // a queued (throttled) entry is held inside build(): it passes when it is released,
                 // its response time counts from its creation
@@ -204,6 +216,9 @@ impl Subject for C04 {
         if !self.open.is_empty() {
             v.push(Op::ExitErr);
         }
+        if self.open.is_empty() && self.ledger.nodes.len() > 1 && self.cfg.rules != "many-resources" {
+            v.push(Op::ResetRegistry);
+        }
         // 61 000 ms: a response time beyond the statistic window and beyond the default maximum
         for d in [1, 499, 500, 1000, 10000, 61_000] {
             v.push(Op::Advance(d));
@@ -223,6 +238,10 @@ impl Subject for C04 {
             Op::Advance(d) => {
                 advance_ms(*d);
                 self.advanced = true;
+            }
+            Op::ResetRegistry => {
+                stat::reset_resource_map();
+                self.ledger.nodes.retain(|name, _| name == INBOUND);
             }
         }
         compare_nodes(&self.ledger, now_ms())
